@@ -41,7 +41,7 @@ func VerifH_C06_scan() {
 		symAssert(vIns(w, int64(100+i), keys[i], int64(i), nil) == nil, "insert-ok")
 	}
 	// optionally one deleted row
-	del := symChoice("deleted", m+1) - 1
+	del := symChoice("deleted", symParam("dels", m+1)) - 1
 	if del >= 0 {
 		symAssert(w.Delete(vAt(500), keys[del]) == nil, "delete-ok")
 	}
@@ -61,7 +61,8 @@ func VerifH_C06_scan() {
 	for i := range cons {
 		is := string(rune('0' + i))
 		cons[i].op = Op(1 + symChoice("op", 5))
-		if symParam("nulls", 1) == 1 && symChoice("null", 2) == 1 {
+		// a NULL operand is handled before the operator matters: explore it for "=" only
+		if symParam("nulls", 1) == 1 && cons[i].op == OpEQ && symChoice("null", 2) == 1 {
 			cons[i].isNull = true
 		} else {
 			cons[i].operand = symInt64("operand" + is)
@@ -69,7 +70,7 @@ func VerifH_C06_scan() {
 		input[i] = IndexInput{Op: cons[i].op, ColumnIndex: 0}
 	}
 	var order []OrderInput
-	ordKind := symChoice("orderby", 4) // none, key asc, key desc, non-key column
+	ordKind := symChoice("orderby", symParam("orders", 4)) // none, key asc, key desc, non-key column
 	switch ordKind {
 	case 1:
 		order = []OrderInput{{Column: 0, Desc: false}}
